@@ -89,7 +89,8 @@ type FnTx struct {
 	deferred    []*ssa.Defer
 	fnValSorts  map[string][2][]types.Type // name -> (param types, result types)
 	retStates   []retPoint
-	instance    string // bounded instance name ("" = unbounded)
+	instance    string                      // bounded instance name ("" = unbounded)
+	privObj     map[*ssa.FreeVar]*types.Map // private captured cells holding a map object that never escapes the parent
 	relCache    map[int]map[int]bool
 	oblBlock    int
 }
@@ -901,6 +902,25 @@ func (tx *FnTx) run() (err error) {
 		tx.d.declConst(n, "Int")
 		tx.vals[fv] = Term{S: n, Sort: "Int", GT: fv.Type()}
 	}
+	// private map objects (protected from the effects of unknown callees)
+	tx.privObj = map[*ssa.FreeVar]*types.Map{}
+	for i, fv := range fn.FreeVars {
+		if tx.privFV[fv] {
+			if mt := privateMapObject(fn, i); mt != nil {
+				tx.privObj[fv] = mt
+			}
+		}
+	}
+	// function-valued things called dynamically: record their signatures up front (for calls()/callsOn() in invariants)
+	for _, b := range fn.Blocks {
+		for _, in := range b.Instrs {
+			if c, ok := in.(*ssa.Call); ok && !c.Call.IsInvoke() && c.Call.StaticCallee() == nil {
+				if _, isB := c.Call.Value.(*ssa.Builtin); !isB {
+					tx.recordFnVal(fnValName(c.Call.Value), c.Call.Value.Type())
+				}
+			}
+		}
+	}
 	// lets and preconditions
 	env := tx.baseEnv(st, st)
 	if tx.c != nil {
@@ -1115,6 +1135,21 @@ func (tx *FnTx) enterLoop(li *loopInfo, pre *State) *State {
 		// no modifies clause: everything on the heap is unknown at the loop head
 		head = tx.h.havocAll(pre)
 		li.havocAll = true
+		// private map objects keep their content unless the loop body itself updates maps of that type
+		mutated := map[string]bool{}
+		for bb := range li.body {
+			for _, in := range bb.Instrs {
+				switch x := in.(type) {
+				case *ssa.MapUpdate:
+					mutated[types.TypeString(x.Map.Type().Underlying(), nil)] = true
+				case *ssa.Call:
+					if b, ok := x.Call.Value.(*ssa.Builtin); ok && b.Name() == "delete" {
+						mutated[types.TypeString(x.Call.Args[0].Type().Underlying(), nil)] = true
+					}
+				}
+			}
+		}
+		tx.protectPrivate(pre, head, mutated)
 	}
 	if li.spec != nil && li.spec.HasMod {
 		env := tx.baseEnv(pre, tx.entry)
@@ -1201,6 +1236,11 @@ func (tx *FnTx) ghostsTouchedIn(li *loopInfo) func(string) bool {
 	prefixes := []string{}
 	for bb := range li.body {
 		for _, in := range bb.Instrs {
+			if nx, ok := in.(*ssa.Next); ok {
+				if rg, ok := nx.Iter.(*ssa.Range); ok {
+					exact["visited!"+rg.Name()] = true
+				}
+			}
 			call, ok := in.(*ssa.Call)
 			if !ok {
 				continue
@@ -1222,7 +1262,8 @@ func (tx *FnTx) ghostsTouchedIn(li *loopInfo) func(string) bool {
 				n := fnValName(cc.Value)
 				desc = "dyn:" + n
 				exact["calls!"+n] = true
-				prefixes = append(prefixes, "lastarg!"+n+"!", "lastret!"+n+"!")
+				exact["callsAt!"+n] = true
+				prefixes = append(prefixes, "lastarg!"+n+"!", "lastret!"+n+"!", "lastargAt!"+n+"!", "lastretAt!"+n+"!")
 			}
 			if c != nil {
 				ids := map[string]bool{}
@@ -1252,6 +1293,80 @@ func (tx *FnTx) ghostsTouchedIn(li *loopInfo) func(string) bool {
 			}
 		}
 		return false
+	}
+}
+
+// privateMapObject: free variable idx of closure fn is a cell that only ever holds map objects created in the parent
+// and used there only as maps (never stored elsewhere or passed on). Returns the map type, or nil.
+func privateMapObject(fn *ssa.Function, idx int) *types.Map {
+	parent := fn.Parent()
+	if parent == nil {
+		return nil
+	}
+	var mt *types.Map
+	for _, b := range parent.Blocks {
+		for _, in := range b.Instrs {
+			mc, ok := in.(*ssa.MakeClosure)
+			if !ok || mc.Fn != fn {
+				continue
+			}
+			bind := mc.Bindings[idx]
+			pt, ok := bind.Type().Underlying().(*types.Pointer)
+			if !ok {
+				return nil
+			}
+			m, ok := pt.Elem().Underlying().(*types.Map)
+			if !ok {
+				return nil
+			}
+			mt = m
+			for _, r := range *bind.Referrers() {
+				st, ok := r.(*ssa.Store)
+				if !ok || st.Addr != bind {
+					continue
+				}
+				mk, ok := st.Val.(*ssa.MakeMap)
+				if !ok {
+					return nil
+				}
+				for _, mr := range *mk.Referrers() {
+					switch y := mr.(type) {
+					case *ssa.Store:
+						if y != st {
+							return nil
+						}
+					case *ssa.MapUpdate:
+						if y.Map != mk {
+							return nil
+						}
+					case *ssa.Lookup, *ssa.Range, *ssa.DebugRef:
+					default:
+						return nil
+					}
+				}
+			}
+		}
+	}
+	return mt
+}
+
+// havocAllP: havoc of everything an unknown callee may touch; private map objects keep their content.
+func (tx *FnTx) havocAllP(st *State) *State {
+	n := tx.h.havocAll(st)
+	tx.protectPrivate(st, n, nil)
+	return n
+}
+
+func (tx *FnTx) protectPrivate(old, n *State, skipTypes map[string]bool) {
+	for fv, mt := range tx.privObj {
+		if skipTypes != nil && skipTypes[types.TypeString(mt, nil)] {
+			continue
+		}
+		ref := tx.h.readBase(old, &Loc{Kind: locLocal, Local: fv})
+		dom, val := tx.mapComps(mt)
+		for _, c := range []*Comp{dom, val} {
+			n.heaps[c.Name] = sapp("store", tx.h.heapTerm(n, c), ref, sapp("select", tx.h.heapTerm(old, c), ref))
+		}
 	}
 }
 
